@@ -224,6 +224,16 @@ func idxEdgeFilter(fn *ssa.Function, delAbsent, delNotRule, delScheduled bool) e
 				}
 			}
 		}
+		// `scheduledRule(rule)`: a predicate of the package that answers false when the key is absent
+		if delScheduled && (ct.TrueWhen == "true" || ct.TrueWhen == "false") {
+			if c, ok := resolveSpill(ct.V).(*ssa.Call); ok && isSchedulePredicate(c.Common().StaticCallee()) {
+				if ct.TrueWhen == "true" {
+					del[edge{b, 0}] = true
+				} else {
+					del[edge{b, 1}] = true
+				}
+			}
+		}
 		// rule == nil
 		if delNotRule && (ct.TrueWhen == "nil" || ct.TrueWhen == "nonnil") && derivesFromCall(ct.V, isExtractRule, 0) {
 			nilIdx := 0
@@ -234,6 +244,54 @@ func idxEdgeFilter(fn *ssa.Function, delAbsent, delNotRule, delScheduled bool) e
 		}
 	}
 	return func(from *ssa.BasicBlock, si int) bool { return !del[edge{from, si}] }
+}
+
+// isSchedulePredicate: f returns one bool, looks up the key "schedule" (comma-ok) and returns false when it is absent:
+// `true` therefore means `the rule has a schedule`.
+func isSchedulePredicate(f *ssa.Function) bool {
+	if f == nil || len(f.Blocks) == 0 || f.Signature.Results().Len() != 1 {
+		return false
+	}
+	if b, ok := f.Signature.Results().At(0).Type().Underlying().(*types.Basic); !ok || b.Kind() != types.Bool {
+		return false
+	}
+	okShape := false
+	for _, b := range f.Blocks {
+		if len(b.Instrs) == 0 {
+			continue
+		}
+		ifi, ok := b.Instrs[len(b.Instrs)-1].(*ssa.If)
+		if !ok {
+			continue
+		}
+		ct, ok := decodeIf(ifi)
+		if !ok {
+			continue
+		}
+		ex, ok := ct.V.(*ssa.Extract)
+		if !ok || ex.Index != 1 {
+			continue
+		}
+		lk, ok := ex.Tuple.(*ssa.Lookup)
+		if !ok || !lk.CommaOk {
+			continue
+		}
+		if k, isC := constString(lk.Index); !isC || k != "schedule" {
+			continue
+		}
+		absent := b.Succs[1]
+		if ct.TrueWhen == "false" {
+			absent = b.Succs[0]
+		}
+		if len(absent.Instrs) > 0 {
+			if ret, ok := absent.Instrs[len(absent.Instrs)-1].(*ssa.Return); ok && len(ret.Results) == 1 {
+				if v, isC := isConstBool(ret.Results[0]); isC && !v {
+					okShape = true
+				}
+			}
+		}
+	}
+	return okShape
 }
 
 // callsPatternOp: in calls (directly or through a same-type wrapper taking the rule map) PatternIndex.<op>;
@@ -675,6 +733,6 @@ func init() {
 		ID:      "C01",
 		Explain: "Static pairing / provenance / sibling rules over the rule index of IndexedState, the pattern trie and the parsed-rule cache of both state implementations: structural necessary conditions of \"no matching rule is skipped because of how rules are indexed, and a removed / overwritten / re-patterned rule is never dispatched on its former pattern\". Does not decide completeness of the trie search beyond visit<=>collect, the bindings produced, ancestor merging or expiry timing.",
 		Assume:  []string{"the rule index is touched only through PatternIndex.AddPatternMap / RemPatternMap / SearchPatternsMap (checked: callers are resolved through go/types)"},
-		Rules:   []ruleFn{ruleCacheInv, ruleIdxRem, ruleIdxAdd, ruleIdxVisit, ruleIdxBranch, ruleIdxSort, ruleDispRematch, ruleIdxRest, ruleIdxReset, ruleLoopExhaust("C01"), ruleCopyEmpty("C01"), ruleParentsValue("C01"), ruleIdxRollback("C01"), ruleIdxOrder("C01"), ruleAncOnce("C01")},
+		Rules:   []ruleFn{ruleCacheInv, ruleIdxRem, ruleIdxAdd, ruleIdxVisit, ruleIdxBranch, ruleIdxSort, ruleDispRematch, ruleIdxRest, ruleIdxReset, ruleLoopExhaust("C01"), ruleCopyEmpty("C01"), ruleParentsValue("C01"), ruleIdxRollback("C01"), ruleIdxOrder("C01"), ruleAncOnce("C01"), ruleSchedAgree},
 	})
 }
